@@ -35,10 +35,11 @@ softplus threshold, `tanhT`, `cauchyT`, `logTanhT`), the element-wise layer loop
 BatchNorm in evaluation mode, permutations and squeeze — are in `Properties/C01E.lean`, with counterexample theorems for every
 forced side condition.
 **What no theorem in this namespace covers** (carried by the correspondence run and the Jacobian oracle only): the log-det of
-QR / SVD / naive / Householder layers as Jacobians (their matrix identities `logabsdet = log|det W|` are in C11), multiscale,
+the naive linear layer as a Jacobian (LU / QR / SVD / Householder: `Properties/C01L.lean`), multiscale,
 UMNN; image-shaped coupling inputs (`S > 1`) have the left-fold form of the log-det but no Jacobian statement; bounded splines are
 covered strictly inside bins (cubic and RQ-with-tails also at knots), not at the end-points of the box; per-element derivative
-laws inside layers are discharged for affine, additive and RQ(-tails) elements, not for quadratic / cubic / linear ones;
+laws inside layers are discharged for affine, additive and RQ(-tails) elements here and for quadratic / cubic / linear ones in
+`Properties/C01L.lean` (forward pass; knots excluded for quadratic and linear);
 Fréchet differentiability of a row map through a conditioner is a hypothesis, discharged for constant / affine conditioners and
 (`Properties/C03ND.lean`) for MADE with a smooth activation in the affine autoregressive layer — not for ReLU networks.
 Arrays are read with `getD`: a conditioner output of the wrong size is read as zeros where PyTorch raises.
